@@ -373,13 +373,26 @@ func clusterTrace(args []string) error {
 					emit("", "c.fail", "op", op, "err", err.Error())
 				}
 				c.WaitConverged(10 * time.Second)
-				ref, _ := dumpLogical(l.Store)
-				for _, n := range c.nodes {
-					d, err := dumpLogical(n.Store)
-					if err != nil || d != ref {
-						st.FinalMismatch = append(st.FinalMismatch, fmt.Sprintf("run %d node %s differs from leader %s", run, n.ID, l.ID))
+				// raft's applied index only says the entries were handed to the FSM goroutine; a divergence is
+				// persistent, a node that is merely behind is not: compare until equal or 20 s have passed
+				var diff []string
+				for dl := time.Now().Add(20 * time.Second); ; time.Sleep(250 * time.Millisecond) {
+					diff = diff[:0]
+					ref, _ := dumpLogical(l.Store)
+					for _, n := range c.nodes {
+						if n.stopped {
+							continue
+						}
+						d, err := dumpLogical(n.Store)
+						if err != nil || d != ref {
+							diff = append(diff, fmt.Sprintf("run %d node %s differs from leader %s", run, n.ID, l.ID))
+						}
+					}
+					if len(diff) == 0 || time.Now().After(dl) {
+						break
 					}
 				}
+				st.FinalMismatch = append(st.FinalMismatch, diff...)
 			}
 		} else {
 			emit("", "note", "converge", err.Error())
